@@ -49,8 +49,8 @@ def _case(draw, tier):
                                  "deleteobject", "storemetadata", "retrievemetadata", "deletemetadata", "getchecksum"]))
     c = {"cfg": cfg, "contents": [{"hex": "68656c6c6f20776f726c640d0a" * 3}, {"hex": ("c3a9" + "61" * 30) * 50}],
          "docs": [{"hex": "3c6d2f3e0d0a3c2f6d3e"}, {"hex": ("3c78" + "c3a9" + "2f3e") * 300}],
-         "ops": draw(ops.history(op, 0, 5)), "verb": verb, "pid": draw(st.sampled_from(PIDS + ["unknown"])),
-         "c": draw(st.integers(0, 1)),
+         "ops": draw(st.one_of(ops.history(op, 0, 5), ops.history(op, 0, 5), st.just([]))), "verb": verb, "pid": draw(st.sampled_from(PIDS + ["unknown"])),
+         "c": draw(st.integers(0, 1)), "creation_died": draw(st.sampled_from([0] * 8 + [1, 2, 3])),
          # how the -path value is spelled: the same string goes to the API ("options reach the API with the types it requires",
          # unedited): a trailing separator or "/." behind a regular file, no such file, a directory, "./" segments inside
          "path_form": draw(st.sampled_from(["plain"] * 6 + ["trailing-slash", "trailing-slash-dot", "missing", "directory",
@@ -160,6 +160,12 @@ def run_case(case, ctx):
             d = os.path.join(rootC, sub, "tmp")
             if os.path.isdir(d):
                 common.write_file(os.path.join(d, "tmpinflight0"), body)
+    if verb != "create" and case.get("creation_died") and not case["ops"]:
+        # the process that created the store died right after it had written hashstore.yaml (which comes first): the data
+        # directories, or some of them, are not there yet.  Whatever the API makes of such a store, the client does the same
+        for sub in (("objects", "metadata", "refs"), ("refs",), ("metadata", "refs"))[case["creation_died"] % 3]:
+            shutil.rmtree(os.path.join(rootC, sub), ignore_errors=True)
+        ctx.classify("store-whose-creation-died-after-hashstore.yaml")
     rootA = os.path.join(run.work, "api")  # API copy
     shutil.copytree(rootC, rootA)
     desc = {"verb": verb, "pid": pid, "opts": case.get("opts"), "prior": [o["op"] + ":" + str(o.get("pid")) for o in case["ops"]]}
